@@ -241,6 +241,7 @@ def run(ctx):
     # ------------------------------------------------------------ R02.4
     constness_predicates(ctx)
     mirrored_slots(ctx)
+    overload_order(ctx)
 
 
 def _canon_arm(db, f, stmts, label):
@@ -405,4 +406,49 @@ def mirrored_slots(ctx):
         ok = then_l == [want_then] and else_l == [want_else]
         ctx.ob("R02.5", "write_module_class|true-divide-mirror-names", ok, f.loc(x), "key == %s -> %s, else %s" % (lit, then_l, else_l))
     ctx.floor("R02.5", "mirror-name selections", len(pairs), 1)
+
+
+
+
+def overload_order(ctx):
+    """R02.6: the -python-native dispatcher tries the overloads of one arity in descending get_type_sort() order and takes
+    the first whose argument conversion succeeds.  A `bool` parameter accepts every object (PyObject_IsTrue), so it
+    must rank below every numeric type, and - TypeManager::is_integer() being true for bool - the integer rank must
+    exclude bool."""
+    db = ctx.db
+    ctx.rule("R02.6", "get_type_sort ranks bool below float, double, integer, long long and unsigned long long, and the integer rank is given only to non-bool types")
+    fns = db.fns("get_type_sort")
+    if not fns:
+        ctx.broken("get_type_sort not found")
+    f = fns[0]
+    rank = {}
+    rets = [r for r in f.walk() if r.get("k") == "ret" and const_int(r.get("e")) is not None]
+    preds = ("is_bool", "is_integer", "is_double", "is_float", "is_longlong", "is_unsigned_longlong")
+    for r in rets:
+        k = const_int(r["e"])
+        for pn in preds:
+            if G.gated(f, r, G.edges_where(f, G.pred_true("TypeManager::" + pn, pn))):
+                # the innermost: the predicate whose true edge leads here and no other rank's
+                rank.setdefault(pn, []).append((k, r))
+    # a return gated by several predicates (the integer one is gated by is_integer only) - keep, per predicate, the
+    # return that is NOT gated by a predicate tested earlier in the chain: the smallest set wins
+    final = {}
+    for pn, lst in rank.items():
+        best = None
+        for k, r in lst:
+            others = [q for q in preds if q != pn and any(r is rr for kk, rr in rank.get(q, []))]
+            if best is None or len(others) < best[2]:
+                best = (k, r, len(others))
+        final[pn] = best
+    missing = [pn for pn in preds if pn not in final]
+    if missing:
+        ctx.broken("get_type_sort: no rank found for %s" % missing)
+    kb = final["is_bool"][0]
+    for pn in preds[1:]:
+        ctx.ob("R02.6", "get_type_sort|bool-below-%s" % pn[3:], kb < final[pn][0], f.loc(final[pn][1]),
+               "rank(bool) = %d, rank(%s) = %d (the higher rank is tried first)" % (kb, pn[3:], final[pn][0]))
+    ri = final["is_integer"][1]
+    ok = G.gated(f, ri, G.edges_where(f, G.pred_false("TypeManager::is_bool", "is_bool")))
+    ctx.ob("R02.6", "get_type_sort|integer-rank-excludes-bool", ok, f.loc(ri),
+           "the integer rank %d is %sgiven only when !is_bool(type) (is_integer() is true for bool)" % (final["is_integer"][0], "" if ok else "NOT "))
 
